@@ -106,6 +106,8 @@ fn crafted() -> Vec<(String, Vec<KEv>)> {
         "(defcfg sequence-always-on yes sequence-input-mode hidden-delay-type)\n(defvirtualkeys v1 z)\n(defseq v1 (a b))\n(defsrc a b c)\n(deflayer l0 a b c)\n",
         "(defcfg concurrent-tap-hold yes)\n(defsrc a b c)\n(deflayer l0 a b c)\n(defchordsv2 (a b) c 30 all-released ())\n",
         "(defsrc a b c)\n(deflayer l0 (dynamic-macro-record 1) (dynamic-macro-play 1) c)\n",
+        // zippychord with a caps-word key (`;;file` carries the dictionary): a = caps-word, b c = chord keys
+        ";;file zd 6263096461790a\n(defsrc a b c)\n(deflayer l0 (caps-word 50) b c)\n(defzippy zd on-first-press-chord-deadline 40 idle-reactivate-time 30 smart-space full)\n",
     ] {
         // bursts without a tick: more presses than the 16-slot lists of chords v2 / sequences hold
         for (n, with_rel) in [(17usize, false), (20, true), (33, false), (40, true)] {
@@ -137,6 +139,13 @@ fn crafted() -> Vec<(String, Vec<KEv>)> {
         "(macro x 5 y)", "(macro-repeat x y)", "(layer-while-held l1)", "(layer-toggle l1)", "(fork x y (w))", "(switch ((key-history q 2)) x break () y fallthrough () z break)",
         "(chord grp q)", "(multi lsft (tap-dance-eager 50 (x y z)))", "rpt", "rpt-any", "(caps-word 100)", "(release-key w)", "(on-press-fakekey v1 toggle)",
         "(unmod x)", "mlft", "(mwheel-up 50 120)", "(dynamic-macro-record 1)", "sldr",
+        // the custom-action arms of handle_keystate_changes with arithmetic on their arguments, at the
+        // ends of the ranges the parser admits (u16 additions in the acceleration ramp of
+        // handle_move_mouse, the f32 scaling of apply_mouse_distance_modifiers, `interval - 1`)
+        "(movemouse-accel-up 1 1 30000 30000)", "(movemouse-accel-left 1 65535 1 30000)", "(movemouse-accel-down 65535 2 1 30000)",
+        "(multi (movemouse-speed 65535) (movemouse-speed 65535) (movemouse-up 1 30000))", "(multi (movemouse-speed 1) (movemouse-accel-right 1 3 1 2))",
+        "(mwheel-down 1 30000)", "mwu", "(setmouse 65535 65535)", "(arbitrary-code 767)", "(arbitrary-code 0)", "(caps-word-toggle 1)",
+        "(multi mlft mrgt mmid mfwd mbck)", "(multi x y z reverse-release-order)", "(on-press-delay 1)", "(on-release-delay 1)",
     ] {
         let cfg = format!(
             "(defvirtualkeys v1 z)\n(defchords grp 50 (q) x (w) y (q w) z)\n(defsrc q w)\n(deflayer l0 {act} {})\n(deflayer l1 _ _)\n",
@@ -194,6 +203,18 @@ fn crafted() -> Vec<(String, Vec<KEv>)> {
             let mut r2 = Rng::new(0xC02_C42 ^ seed);
             let keys = [code("a"), code("b"), code("c")];
             let h = wild_history(&mut r2, &keys, 8 + 6 * seed as usize);
+            v.push((cfg.clone(), h));
+        }
+    }
+    // pointer movement on both axes with smooth diagonals and inherited acceleration state, under
+    // undisciplined histories (repeated presses re-arm a running movement, releases of keys that are
+    // up): handle_move_mouse's movemouse_buffer branches and the inheriting arm of MoveMouseAccel
+    for opts in ["", " movemouse-smooth-diagonals yes", " movemouse-inherit-accel-state yes", " movemouse-smooth-diagonals yes movemouse-inherit-accel-state yes"] {
+        let cfg = format!("(defcfg{opts})\n(defsrc a b c d)\n(deflayer l0 (movemouse-accel-up 1 5 1 30000) (movemouse-accel-right 2 3 7 9) (movemouse-left 1 1) (multi (movemouse-speed 300) (movemouse-accel-down 3 65535 1 2)))\n");
+        for seed in 0..6u64 {
+            let mut r2 = Rng::new(0xC02_3A5 ^ seed);
+            let keys = [code("a"), code("b"), code("c"), code("d")];
+            let h = wild_history(&mut r2, &keys, 10 + 8 * seed as usize);
             v.push((cfg.clone(), h));
         }
     }
